@@ -284,6 +284,7 @@ theorem sim (all : List String) (f : Nat) :
           rw [Py.exec] at hpy; cases hpy
           rw [C.exec]; left
           exact ⟨_, rfl, ⟨hst.tr, rfl, hst.rel⟩⟩
+      | call y g ps ls rt body ret args => simp only [Stmt.okNested] at hok; cases hok
     · intro te m d i n b b' stp stc stp' nvI k hnwt hiall hi hnv hbok hall hb hst hci hlim hpy
       rw [Py.exec.forLoop] at hpy
       rw [C.exec.forLoop]
